@@ -6,6 +6,7 @@ package main
 import (
 	"bufio"
 	"bytes"
+	"compress/zlib"
 	"encoding/hex"
 	"encoding/json"
 	"errors"
@@ -36,6 +37,9 @@ type job struct {
 	Body  string `json:"body"` // hex
 	Kind  string `json:"kind"`
 	Type  string `json:"type"`
+	// frame-level jobs: Frame is the complete wire data (length prefix included) handed to a decoder with compression enabled
+	Frame     string `json:"frame,omitempty"`
+	Threshold int    `json:"threshold,omitempty"`
 }
 
 type result struct {
@@ -64,9 +68,15 @@ func decodeOne(j job) (res result) {
 	body, _ := hex.DecodeString(j.Body)
 	fr := frameOf(j.ID, body)
 	dir := proto.Direction(j.Dir)
+	if j.Frame != "" {
+		fr, _ = hex.DecodeString(j.Frame)
+	}
 	d := codec.NewDecoder(bytes.NewReader(fr), dir, logr.Discard())
 	d.SetProtocol(proto.Protocol(j.Proto))
 	d.SetState(states[j.State])
+	if j.Frame != "" {
+		d.SetCompressionThreshold(j.Threshold)
+	}
 	var m0, m1 runtime.MemStats
 	runtime.ReadMemStats(&m0)
 	t0 := time.Now()
@@ -241,6 +251,21 @@ func commandBodies(rng *lib.Rng, n int) map[string][]byte {
 	return out
 }
 
+// compressedFrame builds VarInt(frame length) | VarInt(claimed uncompressed size) | zlib(real)
+func compressedFrame(claimed int, real []byte) []byte {
+	var z bytes.Buffer
+	zw := zlib.NewWriter(&z)
+	_, _ = zw.Write(real)
+	_ = zw.Close()
+	var inner bytes.Buffer
+	inner.Write(varint(claimed))
+	inner.Write(z.Bytes())
+	var fr bytes.Buffer
+	fr.Write(varint(inner.Len()))
+	fr.Write(inner.Bytes())
+	return fr.Bytes()
+}
+
 func runChildren(self string, jobs []job, dir string, patience time.Duration) ([]result, []map[string]any) {
 	jobsPath := dir + "/c05_jobs.json"
 	outPath := dir + "/c05_results.txt"
@@ -355,7 +380,7 @@ func main() {
 	out := lib.NewOut("C05", f)
 	out.Rule = "every registered (state, direction, id) at sampled protocols (min, 1.8, 1.13, 1.19.3, 1.20.2, max, first/last of the type): random bodies; a valid encoding and copies of it " +
 		"with one VarInt replaced by -1 / 2^31-1 / remaining+1; truncations; deeply nested NBT for NBT-carrying types; large and adversarially ordered brigadier node lists; " +
-		"each decoded by codec.Decoder in a child process under ulimit -v 6 GiB with a 40 s no-progress watchdog; non-trivial = the decoder returned a packet or consumed a mutated length field (body longer than 1 byte)"
+		"FRAME-level bombs with compression enabled (threshold 0/64/256, both directions): zlib bodies of 4-64 MiB of zeros claiming threshold / 64 KiB / the cap; each decoded by codec.Decoder in a child process under ulimit -v 6 GiB with a 40 s no-progress watchdog; non-trivial = the decoder returned a packet or consumed a mutated length field (body longer than 1 byte)"
 	frag, _ := pktgen.FragmentNames()
 
 	regs := pktgen.All()
@@ -451,6 +476,42 @@ func main() {
 			}
 		}
 	}
+	// FRAME-level bombs through codec.Decoder.Decode() with compression enabled: the zlib body inflates to far more
+	// than the frame claims (all zeros, ratio about 1000:1); the decoder must not inflate beyond the claim
+	// (frame decoder allocation bound: C02_alloc_bound in Properties/C02.v; here the real heap growth is measured)
+	realSizes := []int{1 << 20, 4 << 20, 16 << 20, 64 << 20}
+	if f.Tier == "quick" {
+		realSizes = []int{4 << 20, 16 << 20, 64 << 20}
+	}
+	zeros := make([]byte, realSizes[len(realSizes)-1])
+	// a real payload prefix so that an honest frame decodes: status request (id 0, empty) padded is not valid; use raw zeros
+	for _, dir := range []proto.Direction{proto.ServerBound, proto.ClientBound} {
+		capSize := codec.UncompressedCap
+		if dir == proto.ServerBound {
+			capSize = codec.ServerboundUncompressedCap
+		}
+		for _, th := range []int{0, 64, 256} {
+			for ri, real := range realSizes {
+				claims := []int{th, 65536, capSize}
+				if th == 0 {
+					claims[0] = 1
+				}
+				claimed := claims[(ri+th)%3]
+				if f.Tier != "quick" {
+					for _, cl := range claims {
+						jobs = append(jobs, job{State: "Play", Dir: int(dir), Proto: int(hiProto), Kind: "frame-inflate-bomb", Type: "codec.frame",
+							Frame: hex.EncodeToString(compressedFrame(cl, zeros[:real])), Threshold: th})
+					}
+					continue
+				}
+				jobs = append(jobs, job{State: "Play", Dir: int(dir), Proto: int(hiProto), Kind: "frame-inflate-bomb", Type: "codec.frame",
+					Frame: hex.EncodeToString(compressedFrame(claimed, zeros[:real])), Threshold: th})
+			}
+			// honest frames: claimed = real (within the cap)
+			jobs = append(jobs, job{State: "Play", Dir: int(dir), Proto: int(hiProto), Kind: "frame-honest", Type: "codec.frame",
+				Frame: hex.EncodeToString(compressedFrame(1<<20, zeros[:1<<20])), Threshold: th})
+		}
+	}
 	self, err := os.Executable()
 	if err != nil {
 		panic(err)
@@ -465,6 +526,9 @@ func main() {
 	for _, r := range results {
 		j := jobs[r.I]
 		body, _ := hex.DecodeString(j.Body)
+		if j.Frame != "" {
+			body, _ = hex.DecodeString(j.Frame) // the judge's length is the length of the whole frame
+		}
 		oc := map[string]string{"packet": "OPacket", "error": "OError", "panic": "OPanic"}[r.Outcome]
 		bterm := "None"
 		if frag[j.Type] && len(body) <= 120 && j.Kind != "random" {
@@ -473,11 +537,14 @@ func main() {
 		term := lib.App("Check.C05.mk", `"`+j.Type+`"`, lib.Z(int64(j.Proto)), lib.Bool(proto.Direction(j.Dir) == proto.ClientBound),
 			lib.N(uint64(len(body))), oc, lib.N(r.Alloc), lib.N(uint64(r.Millis)), bterm)
 		bh := j.Body
+		if j.Frame != "" {
+			bh = j.Frame
+		}
 		if len(bh) > 400 {
 			bh = bh[:400] + fmt.Sprintf("…(%d bytes)", len(body))
 		}
 		desc := map[string]any{"type": j.Type, "state": j.State, "dir": proto.Direction(j.Dir).String(), "protocol": j.Proto, "id": j.ID, "kind": j.Kind,
-			"body_hex": bh, "outcome": r.Outcome, "alloc": r.Alloc, "millis": r.Millis, "detail": r.Detail}
+			"body_hex": bh, "compression_threshold": j.Threshold, "frame_level": j.Frame != "", "outcome": r.Outcome, "alloc": r.Alloc, "millis": r.Millis, "detail": r.Detail}
 		if r.Millis > maxMs {
 			maxMs, slowest = r.Millis, desc
 		}
